@@ -18,7 +18,7 @@ use std::fmt::Write as _;
 // ---------------------------------------------------------------------------------------------
 // Type trees
 
-#[derive(Clone, Debug, PartialEq, Eq, Hash, PartialOrd, Ord)]
+#[derive(Clone, Debug, PartialEq, Eq, Hash, PartialOrd, Ord, serde::Serialize, serde::Deserialize)]
 pub enum Ty {
     U8,
     U16,
@@ -216,7 +216,7 @@ impl Ty {
 // ---------------------------------------------------------------------------------------------
 // Values
 
-#[derive(Clone, Debug, PartialEq, Eq, Hash)]
+#[derive(Clone, Debug, PartialEq, Eq, Hash, serde::Serialize, serde::Deserialize)]
 pub enum Val {
     /// u8 / u16 / u32 / u64
     U(u64),
@@ -916,7 +916,7 @@ pub fn abi_iso(t: &Ty, a: &AbiTy, decls: &mut Decls) -> Result<(), String> {
 // Reference encoder / decoder, driven by the ABI description
 
 /// A byte position of the canonical encoding at which an invalid pattern can be planted.
-#[derive(Clone, Debug, PartialEq, Eq)]
+#[derive(Clone, Debug, PartialEq, Eq, serde::Serialize, serde::Deserialize)]
 pub struct Spot {
     pub offset: usize,
     /// 1 for a bool byte, 8 for an enum discriminant
@@ -1302,7 +1302,7 @@ use crate::engine::Outcome;
 use crate::pool::Pool;
 use crate::worker::{BuildOut, BuildSpec, Request};
 
-#[derive(Clone, Debug)]
+#[derive(Clone, Debug, serde::Serialize, serde::Deserialize)]
 pub enum Kind {
     /// C09: `log(v)`, `log(encode(v))`, `log(abi_decode::<T>(canonical bytes))`.
     RoundTrip,
@@ -1319,7 +1319,7 @@ pub enum Kind {
     },
 }
 
-#[derive(Clone, Debug)]
+#[derive(Clone, Debug, serde::Serialize, serde::Deserialize)]
 pub struct Case {
     pub ty: Ty,
     pub val: Val,
@@ -1995,6 +1995,7 @@ pub fn report_failures(
         let replay = |observed: &Option<Outcome>, why: &str| {
             serde_json::json!({
                 "case": case.desc(),
+                "case_json": serde_json::to_value(case).unwrap_or_default(),
                 "type": case.ty.show(),
                 "value": case.val.show(),
                 "canonical_hex": hex::encode(&case.canonical),
@@ -2039,7 +2040,8 @@ pub fn expectation(case: &Case) -> String {
     }
 }
 
-/// `replay CNN <file>`: rebuild the stored single-case package in Mode A and print what happens.
+/// `replay CNN <file>`: re-render the stored case as its own package, rebuild it through the plain
+/// forc path (Mode A), run it and judge it again with the same oracle. Exit 1 if it still violates.
 pub fn replay_cmd(a: &vhcore::Args) -> i32 {
     let Some(path) = &a.replay else {
         vhcore::machinery_failure("usage: replay CNN <replay.json>")
@@ -2049,10 +2051,10 @@ pub fn replay_cmd(a: &vhcore::Args) -> i32 {
     let v: Value = serde_json::from_str(&txt)
         .unwrap_or_else(|e| vhcore::machinery_failure(&format!("replay does not parse: {e}")));
     let r = &v["replay"];
-    let src = r["main_sw"].as_str().unwrap_or("").to_string();
-    if src.is_empty() {
-        vhcore::machinery_failure("replay file has no main_sw");
-    }
+    let case: Case = serde_json::from_value(r["case_json"].clone())
+        .unwrap_or_else(|e| vhcore::machinery_failure(&format!("replay file has no usable case_json: {e}")));
+    let release = r["release"].as_bool().unwrap_or(false);
+    let (src, mut d) = package_source(&[&case]);
     let root = vhcore::work_dir(&format!("{}-replay", a.id));
     let mut w = crate::worker::Worker::new(root);
     let resp = w.handle(&Request {
@@ -2061,39 +2063,46 @@ pub fn replay_cmd(a: &vhcore::Args) -> i32 {
         src,
         extra_files: vec![],
         with_std: true,
-        builds: vec![spec("A", r["release"].as_bool().unwrap_or(false), true)],
+        builds: vec![spec("A", release, true)],
         existing_dir: None,
     });
     let b = &resp.builds[0];
-    println!("case: {}", r["case"].as_str().unwrap_or(""));
-    println!("expected: {}", r["expected"].as_str().unwrap_or(""));
+    println!("case: {}", case.desc());
+    println!("profile: {}", if release { "release" } else { "debug" });
+    println!("expected: {}", expectation(&case));
     if let Some((kind, msg)) = build_failure(b) {
         println!("observed: {kind}: {msg}");
+        println!("still violates (package does not build / run)");
         return 1;
     }
+    let abi = Abi::parse(&b.abi_json)
+        .unwrap_or_else(|e| vhcore::machinery_failure(&format!("cannot parse the build's JSON ABI: {e}")));
     let tm = crate::worker::tests_map(b);
-    let now = tm.get("t0").cloned();
-    println!("observed now: {}", serde_json::to_string(&now).unwrap_or_default());
-    let before: Option<Outcome> = serde_json::from_value(r["observed"].clone()).ok().flatten();
-    let expects_revert = r["expected"].as_str().unwrap_or("").starts_with("Revert");
-    let still = match (&now, expects_revert) {
-        (Some(Outcome::Revert { .. }), true) => false,
-        (_, true) => true,
-        (Some(Outcome::Revert { .. }), false) => true,
-        (Some(Outcome::Ok { logs }), false) => {
-            // the expectation lists the canonical hex; a violation persists when the same
-            // (wrong) observation is made again or any value log differs from canonical
-            let canon = r["canonical_hex"].as_str().unwrap_or("");
-            before == now || !logs.iter().any(|l| hex::encode(&l.data) == canon)
+    let o = tm.get("t0");
+    match o {
+        Some(Outcome::Ok { logs }) => {
+            println!("observed: Ok with {} logs", logs.len());
+            for l in logs {
+                println!("   log id={} {}", l.id, hex::encode(&l.data));
+            }
         }
-        (None, _) => true,
-    };
-    if still {
-        println!("still violates: {}", r["violation"].as_str().unwrap_or(""));
-        1
-    } else {
+        Some(Outcome::Revert { code, logs }) => {
+            println!("observed: Revert({code:#x}) after {} logs", logs.len());
+            for l in logs {
+                println!("   log id={} {}", l.id, hex::encode(&l.data));
+            }
+        }
+        None => println!("observed: test entry missing"),
+    }
+    let j = judge(&case, &abi, &mut d, o);
+    if j.fails.is_empty() {
         println!("no longer violates");
         0
+    } else {
+        for f in &j.fails {
+            println!("still violates: [{}] {}", f.key, f.what);
+        }
+        1
     }
 }
 
@@ -2244,16 +2253,37 @@ pub struct Stage {
     pub idx: Vec<usize>,
 }
 
-/// Stage plan: (0) debug profile on the types with ≤ 2 edges; thorough adds (1) the release
-/// profile on the same types and (2…) the debug profile on the larger types, `chunk_types` types
-/// per stage, in enumeration order.
+/// Stage plan: the types with ≤ 2 edges in the debug profile as two stages — (0) ≤ 1 edge and
+/// binary constructors over two leaves, (1) unary over unary constructors —; thorough adds
+/// (2) the release profile on the same types and (3…) the debug profile on the larger types,
+/// `chunk_types` types per stage, in enumeration order.
 pub fn stages(cases: &[Case], thorough: bool, chunk_types: usize) -> Vec<Stage> {
+    // unary-over-unary types go last: the binary constructors over two leaves carry the
+    // padding-sensitive field orders
+    let group = |t: &Ty| -> usize {
+        let binary = matches!(t, Ty::Tup(..) | Ty::Res(..) | Ty::Enum(_, Some(_)))
+            || matches!(t, Ty::Struct(fs) if fs.len() == 2);
+        if t.edges() <= 1 || binary {
+            0
+        } else {
+            1
+        }
+    };
     let small: Vec<usize> = (0..cases.len()).filter(|&i| cases[i].ty.edges() <= 2).collect();
-    let mut out = vec![Stage {
-        label: "debug/≤2-edges".into(),
-        release: false,
-        idx: small.clone(),
-    }];
+    let mut out = vec![];
+    for (g, label) in ["debug/≤1-edge+binary-over-leaves", "debug/2-edges/unary-over-unary"]
+        .iter()
+        .enumerate()
+    {
+        let idx: Vec<usize> = small.iter().copied().filter(|&i| group(&cases[i].ty) == g).collect();
+        if !idx.is_empty() {
+            out.push(Stage {
+                label: label.to_string(),
+                release: false,
+                idx,
+            });
+        }
+    }
     if !thorough {
         // quick declares only the small space; anything else is a generator bug
         if small.len() != cases.len() {
